@@ -222,8 +222,14 @@ def retire_wiring(P, R, rule='C10.WIRE.6'):
     for s, h, vs in disp:
         if any(pred(t) for t in h.sites()):
             retiring.setdefault(h.key, (h, set()))[1].update(vs or [])
-    if not retiring:
-        raise AnalysisBroken('no handler of the dispatch removes a request from the table')
+    # the server's D and T lines are handled by functions that remove the request themselves (a removal put off to a later
+    # "reap" step is only as complete as the list of places that remember to call it)
+    for letter in ('D', 'T'):
+        hs = [h for (s, h, vs) in disp if vs and ord(letter) in vs]
+        if not hs:
+            raise AnalysisBroken('the dispatch has no handler for the %s line' % letter)
+        for h in hs:
+            R.ob(rule, h.key in retiring, h, 'the handler of the server\'s %s line (%s) removes the request from the table' % (letter, h.name), key='retires:%s' % letter)
     # (a) must-pass-through inside the arms
     sw = None
     for bid in rd.reachable_blocks():
